@@ -1,5 +1,5 @@
 (* Props/C20.v — the theorems that decide property C20.  Statements only. *)
-From CKB Require Import Chain.Proposal Chain.ProposalProofs Chain.ProposalParams gen.ParamsC20.
+From CKB Require Import Chain.Proposal Chain.ProposalProofs Chain.ProposalParams gen.ParamsC20 Chain.ProposalSkip.
 
 (* After ANY sequence of extensions, reorganisations of any depth (to longer
    or shorter chains), truncations and restarts, starting from the genesis
@@ -46,6 +46,22 @@ Theorem c20_example_nontrivial :
   v_set (p_view (prun_state tx_proposal_window (genesis_state []) example_ops)) <> [].
 Proof. exact example_nontrivial. Qed.
 
+(* Returning to a branch that was the main chain before: reconcile_main_chain skips re-verifying the
+   first fork.verified_len() attached blocks; the proposal table must still be given them (their heights
+   were removed when the other branch took over).  With that insertion skipped (k = 3 verified blocks)
+   the view lacks their proposals although the chain and the window are the same. *)
+Theorem c20_skip_verified_refuted :
+  let good := fst (reorg ex_w ex_s2 0 ex_a') in
+  let bad := fst (reorg_skip 3 ex_w ex_s2 0 ex_a') in
+  p_chain bad = p_chain good /\
+  canon (set_spec ex_w (p_chain good)) = [1; 2; 3; 4]%N /\
+  canon (v_set (p_view good)) = [1; 2; 3; 4]%N /\
+  canon (v_set (p_view bad)) = [4]%N.
+Proof. exact skip_verified_refuted. Qed.
+Theorem c20_skip_nothing_is_the_code : forall w t old_tip common ch',
+  update_table_skip 0 w t old_tip common ch' = update_table w t old_tip common ch'.
+Proof. exact update_table_skip_0. Qed.
+
 Redirect "out/C20.c20_view_eq_spec" Print Assumptions c20_view_eq_spec.
 Redirect "out/C20.c20_removed_exact" Print Assumptions c20_removed_exact.
 Redirect "out/C20.c20_init_eq_incremental" Print Assumptions c20_init_eq_incremental.
@@ -53,3 +69,5 @@ Redirect "out/C20.c20_matches_verifier" Print Assumptions c20_matches_verifier.
 Redirect "out/C20.c20_params_ok" Print Assumptions c20_params_ok.
 Redirect "out/C20.c20_example_ok" Print Assumptions c20_example_ok.
 Redirect "out/C20.c20_example_nontrivial" Print Assumptions c20_example_nontrivial.
+Redirect "out/C20.c20_skip_verified_refuted" Print Assumptions c20_skip_verified_refuted.
+Redirect "out/C20.c20_skip_nothing_is_the_code" Print Assumptions c20_skip_nothing_is_the_code.
